@@ -32,6 +32,7 @@ type Goroutine struct {
 	quiescing bool
 	idleNeed  int
 	idleHave  int
+	idleSince int64
 	wake      chan struct{}
 	exited    chan struct{}
 	baseDepth int
@@ -274,12 +275,14 @@ func (s *Sched) pickNext(fr *Frame, curRunnable bool) {
 				panic(pathEnd{"deadlock", msg})
 			}
 			if q != nil {
-				if q.idleHave >= q.idleNeed {
+				// quiet for long enough (logical time since the last real activity)?
+				if s.clock-q.idleSince >= int64(q.idleNeed)*1_000_000 {
 					q.quiescing = false
 					q.ready = func() bool { return true }
 					continue
 				}
-				q.idleHave++
+				s.advanceClockCapped(sleepers, q.idleSince+int64(q.idleNeed)*1_000_000)
+				continue
 			} else {
 				s.idleTicks++
 				if s.idleTicks > in.cfg.MaxIdleTicks {
@@ -295,44 +298,53 @@ func (s *Sched) pickNext(fr *Frame, curRunnable bool) {
 			s.advanceClock(sleepers)
 			continue
 		}
-		// timers/sleepers may also fire "early" relative to running goroutines: a
-		// preemptive choice, offered only within the preemption budget.
-		canPreempt := !curRunnable || s.preemptions < in.cfg.Preemptions
-		var choice *Goroutine
-		advance := false
-		if len(cands) == 1 && (!canPreempt || (len(sleepers) == 0 && pendingTimers == 0) || !in.cfg.TimerPreempt || s.preemptions >= in.cfg.Preemptions) {
-			choice = cands[0]
-		} else if curRunnable && !canPreempt {
-			choice = cur
-		} else {
-			n := len(cands)
-			extra := 0
-			// letting time pass while something could run delays that goroutine: it always costs a preemption
-			if in.cfg.TimerPreempt && (len(sleepers) > 0 || pendingTimers > 0) && s.preemptions < in.cfg.Preemptions {
-				extra = 1
+		// Delay-bounded scheduling: the candidates are ordered deterministically (the running
+		// goroutine first if it can continue, then round-robin by id after it, then "let time
+		// pass"); picking the j-th candidate costs j delays out of the budget (cfg.Preemptions).
+		// The default (cost 0) is to continue / hand over to the next goroutine in order.
+		ordered := make([]*Goroutine, 0, len(cands))
+		if curRunnable && cur.state != gDone {
+			ordered = append(ordered, cur)
+		}
+		var after, before []*Goroutine
+		for _, g := range cands {
+			if g == cur && curRunnable {
+				continue
 			}
-			c := in.path.choose(in, DSched, n+extra, fr)
-			if c < n {
-				choice = cands[c]
+			if g.id > cur.id {
+				after = append(after, g)
 			} else {
-				advance = true
+				before = append(before, g)
 			}
 		}
-		if advance {
-			s.preemptions++
+		ordered = append(append(ordered, after...), before...)
+		n := len(ordered)
+		extra := 0
+		if in.cfg.TimerPreempt && (len(sleepers) > 0 || pendingTimers > 0) {
+			extra = 1
+		}
+		budget := in.cfg.Preemptions - s.preemptions
+		opts := n + extra
+		if opts > budget+1 {
+			opts = budget + 1
+		}
+		c := 0
+		if opts > 1 {
+			c = in.path.choose(in, DSched, opts, fr)
+		}
+		s.preemptions += c
+		if c >= n {
 			s.advanceClock(sleepers)
 			// after advancing, loop to choose again (the woken sleeper is now enabled)
 			continue
 		}
-		if choice != cur && curRunnable {
-			s.preemptions++
-		}
+		choice := ordered[c]
 		if !choice.isDaemonLike() && !choice.quiescing {
 			// real (non timer-driven) activity restarts the idle count
 			s.idleTicks = 0
 			for _, g := range s.gs {
 				if g.quiescing {
-					g.idleHave = 0
+					g.idleSince = s.clock
 				}
 			}
 		}
@@ -343,6 +355,28 @@ func (s *Sched) pickNext(fr *Frame, curRunnable bool) {
 
 // a goroutine that has slept at least once is timer-driven (heart-beat style)
 func (g *Goroutine) isDaemonLike() bool { return g.sleeping || g.everSlept }
+
+// advanceClockCapped advances to the next timer or to limit, whichever is earlier.
+func (s *Sched) advanceClockCapped(sleepers []*Goroutine, limit int64) {
+	var next int64 = -1
+	for _, g := range sleepers {
+		if next < 0 || g.wakeAt < next {
+			next = g.wakeAt
+		}
+	}
+	for _, t := range s.timers {
+		if !t.dead && (next < 0 || t.when < next) {
+			next = t.when
+		}
+	}
+	if next < 0 || next > limit {
+		if limit > s.clock {
+			s.clock = limit
+		}
+		return
+	}
+	s.advanceClock(sleepers)
+}
 
 func (s *Sched) advanceClock(sleepers []*Goroutine) {
 	var next int64 = -1
@@ -452,7 +486,7 @@ func (s *Sched) quiesce(fr *Frame, rounds int) {
 	}
 	g.quiescing = true
 	g.idleNeed = rounds
-	g.idleHave = 0
+	g.idleSince = s.clock
 	g.state = gBlocked
 	g.ready = func() bool { return false }
 	g.blockedOn = "quiesce"
